@@ -126,7 +126,7 @@ def jobs(tier, seed):
               '  { uint32_t s = (kpk_wp(i) >> 3) < 6 ? kpk_index(1, kpk_wk(i), kpk_wp(i) + 8, kpk_bk(i)) : KPK_MAX_INDEX; W_si[8] = s; W_sv[8] = s < KPK_MAX_INDEX ? R[s] : 0; }\n'
               '  { uint32_t s = (kpk_wp(i) >> 3) == 1 ? kpk_index(1, kpk_wk(i), kpk_wp(i) + 16, kpk_bk(i)) : KPK_MAX_INDEX; W_si[9] = s; W_sv[9] = s < KPK_MAX_INDEX ? R[s] : 0; }\n'
               '  update_score(R, i);' + CANARY + '}\n')
-    j = Job('update_score', TUS, ['update_score'], h, 'h_upd', contracts={'update_score': C_UPD}, enforce='update_score',
+    j = Job('update_score', TUS, ['update_score'], h, 'h_upd', contracts={'update_score': C_UPD}, enforce='update_score', gb=6,
             spec=['kpk.h'], timeout=1500, flags=['--arrays-uf-always'], unwindset=loops_unwind([('update_score', 9)]),
             route='closed-by-complete-unwinding(9): a king has at most 8 steps',
             note='one retrograde step == rules for an arbitrary label table (symbolic 196,608-entry array); double push needs both squares empty',
